@@ -46,9 +46,91 @@ def run(requests, kind="release", timeout=600, exe=None, mem_limit=None):
     return out
 
 
-def run_all(requests, kind="release", timeout=600, mem_limit=None):
+# ------------------------------------------------------------------------------------------------------------------
+# Audit: a sample of every shard's (request, reply) pairs is kept and, at the end of the shard, answered again
+#  - by the CHECKED build of the harness (integer overflow traps; debug assertions and the standard library's precondition checks
+#    of unsafe functions in the crate under test), and
+#  - in OTHER ORDERS within one process (ascending and descending by request size, requests of equal size next to each other,
+#    ties shuffled): whatever the library keeps between calls - caches, scratch buffers, statics - then meets a different history.
+# The replies must be the same, bit for bit. This is a monitor of history- and build-independence; it needs no oracle.
+AUDIT = {"on": False, "pairs": [], "seen": 0, "rng": None}
+AUDIT_OPS = {"spec", "hyper", "site_hist", "create", "read_npy", "read_file"}
+AUDIT_MAX = 360
+
+
+def audit_begin(seed_material):
+    import random
+    AUDIT.update(on=os.environ.get("VERIF_AUDIT", "on") != "off", pairs=[], seen=0, rng=random.Random(seed_material))
+
+
+def _audit_offer(requests, results):
+    if not AUDIT["on"]:
+        return
+    rng = AUDIT["rng"]
+    for q, r in zip(requests, results):
+        if q.get("op") not in AUDIT_OPS or r is None or r.get("not_run") or r.get("died"):
+            continue
+        size = len(q.get("data") or "") if isinstance(q.get("data"), (str, list)) else 0
+        if size > 400000 or len(q.get("records") or []) > 300 or len(q.get("q") or []) > 3000:
+            continue
+        AUDIT["seen"] += 1
+        item = (dict(q), _norm(r))          # the reply as it is now: callers may prune their copy afterwards
+        if len(AUDIT["pairs"]) < AUDIT_MAX:
+            AUDIT["pairs"].append(item)
+        else:
+            j = rng.randrange(AUDIT["seen"])        # reservoir sampling: every offered pair is kept with equal probability
+            if j < AUDIT_MAX:
+                AUDIT["pairs"][j] = item
+
+
+def _norm(r):
+    return json.dumps({k: v for k, v in r.items() if k not in ("id", "io")}, sort_keys=True)
+
+
+def audit_check(S, prop):
+    """Answer the sampled requests again (checked build, two other orders) and compare. Reports through S."""
+    pairs, AUDIT["pairs"], was_on = AUDIT["pairs"], [], AUDIT["on"]
+    AUDIT["on"] = False
+    if not was_on or not pairs:
+        return
+    rng = AUDIT["rng"]
+
+    def size_key(q):
+        n = 1
+        for x in q.get("shape") or []:
+            n *= x
+        return (max(n, len(q.get("data") or "") // 16, len(q.get("samples") or [])), len(q.get("shape") or []))
+    tagged = [(size_key(q), rng.random(), i) for i, (q, _) in enumerate(pairs)]
+    orders = {"ascending size": [i for _, _, i in sorted(tagged)], "descending size": [i for _, _, i in sorted(tagged, reverse=True)]}
+    for oname, order in orders.items():
+        try:
+            again = run_all([dict(pairs[i][0]) for i in order], kind="ovf", timeout=900, _audit=False)
+        except HarnessError as e:
+            S.inconc("audit pass (%s): %s" % (oname, e))
+            continue
+        for i, r2 in zip(order, again):
+            q, r1 = pairs[i]
+            S.count("audit_replies_compared")
+            if r1 != _norm(r2):
+                what = "panicked / died" if ("panic" in r2 or r2.get("died")) and '"panic"' not in r1 else "answered differently"
+                brief = {k: (v if len(str(v)) < 200 else str(v)[:200] + "...") for k, v in q.items() if k != "id"}
+                S.viol("%s:audit:%s:%s" % (prop, q.get("op"), "died" if what.startswith("panicked") else "differs"),
+                       "[audit, %s, checked build] request %s %s than in the main run: %s vs %s" % (
+                           oname, str(brief)[:300], what, _norm(r2)[:300], r1[:300]),
+                       {"level": "L", "audit": {"order": oname, "request": {k: v for k, v in q.items() if k != "id"}}})
+    S.observe("audit_orders", "ascending size, descending size (checked build)")
+
+
+def run_all(requests, kind="release", timeout=600, mem_limit=None, _audit=True):
     """Like run(), but restarts the harness after a request that killed it, so that every request
     gets an answer (the killer gets {'died': True})."""
+    results = _run_all(requests, kind, timeout, mem_limit)
+    if _audit and kind == "release" and mem_limit is None:
+        _audit_offer(requests, results)
+    return results
+
+
+def _run_all(requests, kind, timeout, mem_limit):
     results = [None] * len(requests)
     pending = list(range(len(requests)))
     while pending:
